@@ -416,6 +416,44 @@ def check_order(pname, gname, keys, limit, offset):
     return None
 
 
+def check_distinct_order(pname, gname, vars_, keys, limit):
+    """SELECT DISTINCT <projection> ... ORDER BY <keys> [LIMIT n]: ordering happens before projection and DISTINCT (18.5), so the sort keys need not be
+    projected; the result never repeats a row, is the set of distinct projected rows (a subset of the right size under LIMIT), and respects the order
+    wherever the keys are projected."""
+    where = S.inner(PATTERNS[pname])
+    order = " ".join(("DESC(%s)" % k if desc else k) for k, desc in keys)
+    q = "SELECT DISTINCT %s WHERE { %s } ORDER BY %s%s" % (" ".join("?" + v for v in vars_), where, order, "" if limit is None else " LIMIT %d" % limit)
+    want = []
+    for m in ref_rows(pname, gname):
+        r = tuple(m.get(v) for v in vars_)
+        if not any(row_equal(r, w) for w in want):
+            want.append(r)
+    try:
+        vs, got = run_query(graph_for(gname), q)
+    except Exception as e:  # noqa: BLE001
+        return ("distinct+order|raises|%s" % type(e).__name__, {"query": q, "exc": repr(e)[:300]})
+    if vs != list(vars_):
+        return ("distinct+order|vars-differ", {"query": q, "got": vs})
+    for i in range(len(got)):
+        for j in range(i + 1, len(got)):
+            if row_equal(got[i], got[j]):
+                return ("distinct+order|row-repeated", {"query": q, "got": list(map(repr, got))})
+    if limit is None:
+        if not multiset_equal(got, want):
+            return ("distinct+order|rows-differ", {"query": q, "got": sorted(map(repr, got)), "expected": sorted(map(repr, want))})
+    else:
+        if len(got) != min(limit, len(want)) or not all(any(row_equal(r, w) for w in want) for r in got):
+            return ("distinct+order|slice-differs", {"query": q, "got": list(map(repr, got)), "expected_from": list(map(repr, want))})
+    if all(k.startswith("?") and k[1:] in vars_ for k, _ in keys):
+        descs = [d for _, d in keys]
+        kv = [[dict(zip(vars_, r)).get(k[1:]) for k, _ in keys] for r in got]
+        for i in range(len(got)):
+            for j in range(i + 1, len(got)):
+                if key_less(kv[j], kv[i], descs):
+                    return ("distinct+order|later-row-precedes-earlier", {"query": q, "rows": list(map(repr, got))})
+    return None
+
+
 AGGS = [("COUNT*", False, None), ("COUNT", False, "v"), ("COUNT", True, "v"), ("COUNT", False, "w"), ("SUM", False, "v"), ("SUM", True, "v"),
         ("AVG", False, "v"), ("AVG", True, "v"), ("MIN", False, "v"), ("MAX", False, "v"), ("SAMPLE", False, "v"), ("SAMPLE", False, "w"),
         ("GROUP_CONCAT", False, "w"), ("GROUP_CONCAT", True, "w"), ("GROUP_CONCAT;", False, "w")]
@@ -529,6 +567,13 @@ def all_cases(thorough):
                 for limit, offset in [(0, None), (1, None), (2, None), (None, 0), (None, 1), (None, 5), (1, 1), (2, 1), (2, 5)]:
                     if thorough or (limit, offset) in [(1, None), (2, 1), (None, 1), (0, None), (None, 5)]:
                         cases.append(("order", pname, gname, keys, limit, offset))
+            for r in range(1, len(pv) + 1):
+                for vars_ in itertools.combinations(pv, r):
+                    for keys in ORDER_KEYS:
+                        if any(not k.startswith("?") or k[1:] not in pv for k, _ in keys):
+                            continue
+                        for limit in (None, 2):
+                            cases.append(("dpo", pname, gname, list(vars_), keys, limit))
             for grouping in GROUPINGS:
                 for agg in AGGS:
                     for wrap in (False, True):
@@ -542,6 +587,8 @@ def all_cases(thorough):
 def run_case(c):
     if c[0] == "dp":
         return check_distinct_projection(c[1], c[2], c[3], c[4])
+    if c[0] == "dpo":
+        return check_distinct_order(c[1], c[2], c[3], [tuple(k) for k in c[4]], c[5])
     if c[0] == "order":
         return check_order(c[1], c[2], [tuple(k) for k in c[3]], c[4], c[5])
     return check_aggregate(c[1], c[2], c[3], tuple(c[4]), c[5], c[6])
@@ -581,7 +628,7 @@ def run(ctx):
     ctx.cov["graphs"] = len(GRAPHS) + len(universe_names(3 if thorough else 2))
     ctx.cov["exhaustive"] = True
     ctx.cov["rule"] = ("%d base patterns (BGP, OPTIONAL with unbound, UNION with duplicates) x (%d hand-picked graphs + every graph with <= k triples over a 28-triple universe with 0, \"\", decimals and an IRI object) (empty, integers, duplicates, integer/decimal/double promotion, "
-                       "mixed term kinds with a blank node, non-numeric values, strings) x { every projection subset x DISTINCT; %d ORDER BY key lists x LIMIT/OFFSET menu; "
+                       "mixed term kinds with a blank node, non-numeric values, strings) x { every projection subset x DISTINCT; %d ORDER BY key lists x LIMIT/OFFSET menu; DISTINCT x every projection subset x every ORDER BY key list (projected or not) x {no LIMIT, LIMIT 2}; "
                        "GROUP BY in {implicit, ?s, ?s ?v} x %d aggregates (with DISTINCT, custom separator) x {bare, inside an expression, HAVING} }. Oracle: reference "
                        "pattern evaluator + SPARQL 18.5 modifiers; ORDER BY only constrained on pairs the Recommendation orders. Non-trivial: graph with > 1 triple." % (
                            len(PATTERNS), len(GRAPHS), len(ORDER_KEYS), len(AGGS)))
